@@ -23,7 +23,7 @@ import (
 )
 
 func TestMain(m *testing.M) {
-	vstat.Rule("Frozen clock; Rebalancer(RoundRobin) with scripted meters (rating, ready) per server and back-off from {1s..30s}. State machine: upsert(i,w) with w from {1..8,10,12,100,1000,4096,5000} (and 0), remove(i), rate(i,r) r from {0,0.01,0.1,0.3,0.5,0.9,1}, ready(i,bool), advance(d) (fractions and multiples of the back-off, whole ms + 1us), request, plus composite episodes: 'outlier episode' (ratings with a non-empty outlier set by the documented rule, all ready, requests every backoff/2 for two back-offs) and 'calm episode' (equal ratings, six adjustment opportunities). Weights are read through ServerWeight() after every step. Oracle: (a) 1 <= W_i <= max(4096, conf_i) for conf_i > 0; (b) request-caused weight changes with no membership change between them are more than one back-off apart; (c) a request-caused change while the oracle's own evaluation of the rule (value > (median+MAD)*1.5, zero sentinel for even counts) marks outliers and non-outliers never increases an outlier's share (exact rationals); (d) after every upsert/remove all weights equal the configured ones; (e) an outlier loses share within two back-offs unless no non-outlier can grow below the cap; (f) after six adjustment opportunities without outliers the weights are proportional to the configured ones and stay so. A second scenario class uses the default meter with a handler failing chosen servers and asserts (a),(b),(d). A third (AdminOverlap) lets one whole request run at a hook point inside a re-weight/add/remove call of the rebalancer (before or after the inner balancer's own update; the harness owns that schedule by interposing on the inner balancer) after 0-6 adjustments, then touches a member and asserts (a),(d) for every configured weight incl. the re-weighted one; non-trivial there: the pool was adjusted when the overlapped call ran. Non-trivial: >= 3 weight changes, >= 1 membership change after a change, and an outlier episode followed by a calm episode.")
+	vstat.Rule("Frozen clock; Rebalancer(RoundRobin) with scripted meters (rating, ready) per server and back-off from {1s..30s}. State machine: upsert(i,w) with w from {1..8,10,12,100,1000,4096,5000} (and 0), remove(i), rate(i,r) r from {0,0.01,0.1,0.3,0.5,0.9,1}, ready(i,bool), advance(d) (fractions and multiples of the back-off, whole ms + 1us), request, plus composite episodes: 'outlier episode' (ratings with a non-empty outlier set by the documented rule, all ready, requests every backoff/2 for two back-offs) and 'calm episode' (equal ratings, six adjustment opportunities). Weights are read through ServerWeight() after every step. Oracle: (a) 1 <= W_i <= max(4096, conf_i) for conf_i > 0; (b) request-caused weight changes with no membership change between them are more than one back-off apart; (c) a request-caused change while the oracle's own evaluation of the rule (value > (median+MAD)*1.5, zero sentinel for even counts) marks outliers and non-outliers never increases an outlier's share (exact rationals); (d) after every upsert/remove all weights equal the configured ones; (e) an outlier loses share within two back-offs unless no non-outlier can grow below the cap; (f) after six adjustment opportunities without outliers the weights are proportional to the configured ones and stay so. A second scenario class uses the default meter with a handler failing chosen servers and asserts (a),(b),(d). A third (AdminOverlap) lets one whole request run at a hook point inside a re-weight/add/remove call of the rebalancer (before or after the inner balancer's own update; the harness owns that schedule by interposing on the inner balancer) after 0-6 adjustments, then touches a member and asserts (a),(d) for every configured weight incl. the re-weighted one; non-trivial there: the pool was adjusted when the overlapped call ran. Non-trivial: >= 3 weight changes, >= 1 membership change after a change, and an outlier episode followed by a calm episode. TestC10_ConcurrentRequests: 2-12 requests complete on real goroutines at one frozen instant (spin barrier; the rebalancer's Logger yields while armed) for 1-6 rounds with rating flips; the weights must equal those of a twin pool that served the same requests sequentially.")
 	vstat.Main(m.Run)
 }
 
